@@ -41,6 +41,14 @@ class KexCurve25519:
             )
         return secret
 
+    def _load_peer_key(self, peer_key_bytes):
+        try:
+            return X25519PublicKey.from_public_bytes(peer_key_bytes)
+        except ValueError as e:
+            raise SSHException(
+                "Invalid curve25519 public value from peer: {}".format(e)
+            )
+
     def start_kex(self):
         self.key = X25519PrivateKey.generate()
         if self.transport.server_mode:
@@ -68,7 +76,7 @@ class KexCurve25519:
 
     def _parse_kexecdh_init(self, m):
         peer_key_bytes = m.get_string()
-        peer_key = X25519PublicKey.from_public_bytes(peer_key_bytes)
+        peer_key = self._load_peer_key(peer_key_bytes)
         K = self._perform_exchange(peer_key)
         K = int(binascii.hexlify(K), 16)
         # compute exchange hash
@@ -106,7 +114,7 @@ class KexCurve25519:
         peer_key_bytes = m.get_string()
         sig = m.get_binary()
 
-        peer_key = X25519PublicKey.from_public_bytes(peer_key_bytes)
+        peer_key = self._load_peer_key(peer_key_bytes)
 
         K = self._perform_exchange(peer_key)
         K = int(binascii.hexlify(K), 16)
